@@ -3,17 +3,17 @@ package main
 // C14 — retention cleanup deletes only this appender's own expired files.
 
 import (
-	"syscall"
-	"math"
 	"bytes"
 	"encoding/json"
 	"fmt"
+	"math"
 	"math/rand/v2"
 	"os"
 	"path/filepath"
 	"regexp"
 	"sort"
 	"strings"
+	"syscall"
 	"time"
 
 	log "github.com/go-spring/log"
